@@ -723,3 +723,54 @@ mod test {
         assert_eq!(detect_url(&graphemes, 8), Some(21));
     }
 }
+
+#[cfg(feature = "verif-hooks")]
+pub(crate) mod verif_local {
+    use super::*;
+
+    /// `break_string`: (`E` EndOfInput | `L` LineEnd | `F` EndWithLineFeed, line, length read).
+    pub(crate) fn break_string_plain(
+        max_width: usize,
+        trim_end: bool,
+        line_end: &str,
+        input: &[&str],
+    ) -> (char, String, usize) {
+        match break_string(max_width, trim_end, line_end, input) {
+            SnippetState::EndOfInput(line) => ('E', line, 0),
+            SnippetState::LineEnd(line, len) => ('L', line, len),
+            SnippetState::EndWithLineFeed(line, len) => ('F', line, len),
+        }
+    }
+
+    /// `detect_url`
+    pub(crate) fn detect_url_plain(s: &[&str], index: usize) -> Option<usize> {
+        detect_url(s, index)
+    }
+
+    /// `trim_end_but_line_feed`
+    pub(crate) fn trim_end_but_line_feed_plain(trim_end: bool, result: String) -> String {
+        trim_end_but_line_feed(trim_end, result)
+    }
+
+    /// `is_whitespace`, `is_new_line`, `is_punctuation`, `not_whitespace_except_line_feed` and
+    /// `graphemes_width` of one grapheme.
+    pub(crate) fn grapheme_class(g: &str) -> (bool, bool, bool, bool, usize) {
+        (
+            is_whitespace(g),
+            is_new_line(g),
+            is_punctuation(g),
+            not_whitespace_except_line_feed(g),
+            graphemes_width(&[g]),
+        )
+    }
+
+    /// `is_valid_linebreak`
+    pub(crate) fn is_valid_linebreak_plain(input: &[&str], pos: usize) -> bool {
+        is_valid_linebreak(input, pos)
+    }
+
+    /// `MIN_STRING`
+    pub(crate) fn min_string() -> usize {
+        MIN_STRING
+    }
+}
